@@ -310,8 +310,8 @@ pub fn stream_case(data: &[u8]) -> StreamCase {
 pub fn spi_case(data: &[u8]) -> SpiCase {
     let mut r = Rd::new(data);
     let n = 1 + r.below(4) as u8;
-    let buf = n as u16 + r.u8() as u16 % 80;
-    let cap = (buf / n as u16) as u32;
+    let buf = n as u32 + r.u8() as u32 % 80;
+    let cap = buf / n as u32;
     let count = |r: &mut Rd| -> u32 {
         match r.below(8) {
             0 => 0,
